@@ -51,6 +51,7 @@ RecOK(x) ==
       [] x.op = "reverse" -> x.output = Rev(x.input)
       [] x.op = "reverse2" -> x.output = x.input                    \* applying it twice is the identity
       [] x.op = "shuffle" -> IsPermTagged(x.output, x.input)
+      [] x.op = "stable" -> x.output = x.input                      \* a later call on the same sorter leaves earlier results alone
       [] x.op = "timeout" -> FALSE                                   \* the call did not return
 
 Recs == IF MODE = "check" THEN ndJsonDeserialize(IOEnv.TRACE) ELSE <<>>
